@@ -135,7 +135,7 @@ def arrays(rng, tier):
     yield [bits_of(rng.choice((-1, 1)) * rng.uniform(1, 10) * 10.0 ** rng.randint(-307, 307)) for _ in range(60)]
     # the library test's data
     yield [bits_of(x) for x in (25.34, 25.35, 25.36, 25.33, 25.37)]
-    sizes = (130, 257, 700) if not big else (130, 257, 1000, 4000, 20000)
+    sizes = (130, 257, 700) if not big else (130, 257, 1000, 4000, 8000)   # the extracted model recurses on bit lists
     for n in sizes:
         yield [rand_double(rng) for _ in range(n)]
         yield [rand_normal(rng, 1000, 1040) for _ in range(n)]
@@ -428,7 +428,7 @@ def generate_C03(rng, tier):
     for _ in range(300 if tier == "quick" else 10000):
         arr = [rand_double(rng) for _ in range(rng.randint(1, 40))]
         yield "float_rt %d %d %s" % (rng.choice(precs), rng.choice(modes), lst(arr))
-    for n in (700, 2000) if tier == "quick" else (700, 2000, 20000, 60000):
+    for n in (700, 2000) if tier == "quick" else (700, 2000, 5000, 8000):
         yield "float_rt %d %d %s" % (rng.choice(precs), rng.choice(modes), lst([rand_double(rng) for _ in range(n)]))
     for count in sorted(set(boundary_values()) | set(scraped_literals(FILES))):
         if count < 1 << 60:
@@ -489,13 +489,16 @@ def search(rng, divergent_cases):
 
 
 TRUSTED = ["IEEE-754 binary64 layout of `double` and the hardware `<` on doubles (modelled on bit patterns as fl_dlt)",
-           "ldexp(1.0, -k) is the exact power of two (glibc)"]
+           "ldexp(1.0, -k) is the exact power of two (glibc)",
+           "C07_float_rel_error_real only: Flocq 4 (B2R, b64_of_bits) and the stdlib real-number axioms "
+           "(ClassicalDedekindReals.sig_forall_dec, sig_not_dec, functional_extensionality_dep, Classical_Prop.classic); "
+           "the integer statements C07_float_* are closed under the global context"]
 ASSUME = ["count < 2^58 (no size_t wrap in varintFloatMaxEncodedSize; the size_mul_overflow guards of the C need count >= 2^61)",
           "malloc succeeds (failure paths are C18)",
           "precision in {FULL,HIGH,MEDIUM,LOW}, mode in {INDEPENDENT,COMMON_EXPONENT,DELTA_EXPONENT} for the accuracy statements"]
 
 PARTS = {
-    "C07": dict(coq_props=["Properties_C07_float"], files=FILES, rule=RULE_C07, generate=generate_C07,
+    "C07": dict(coq_props=["Properties_C07_float", "Properties_C07_float_real"], files=FILES, rule=RULE_C07, generate=generate_C07,
                 oracles={"float_rt": o_rt_C07, "float_auto": o_auto_C07}, classify=classify, search=search,
                 assumptions=ASSUME, trusted_base=TRUSTED, configs_quick=["pinned", "O0"]),
     "C03": dict(coq_props=["Properties_C03_float"], files=FILES, rule=RULE_C03, generate=generate_C03,
